@@ -159,7 +159,7 @@ class C18(Check):
         with self._exe_lock:
             self._runid = getattr(self, "_runid", 0) + 1
             prefix = os.path.join(wd, "out%d" % self._runid)
-        args = [exe, str(p.cores), str(p.mt), prefix, "--mca", "runtime_comm_coll_bcast", "0"]
+        args = [exe, str(p.cores), str(p.mt), prefix, "--mca", "runtime_comm_coll_bcast", str(p.bcast)]
         if not p.short:
             args += ["--mca", "runtime_comm_short_limit", "0"]
         env = dict(os.environ)
@@ -316,8 +316,10 @@ class C18(Check):
                   "truncated MPI_Sendrecv to self (silent prefix copy when the send type is contiguous, fatal MPI_ERR_TRUNCATE "
                   "otherwise); arena memory management; task scheduling (the interpreter is sequential, generated programs are "
                   "race free by construction). A consumer may have a second READ data flow fed by the same producer flow (repo slots are "
-                  "indexed by flow); control flows only gate tasks and carry nothing in the model. Not modelled: broadcast relays (runs "
-                  "use runtime_comm_coll_bcast=0), producers with several output flows, GPU copies.")
+                  "indexed by flow); control flows only gate tasks and carry nothing in the model. Broadcast relays are not in the "
+                  "model (every rank receives what the producer packed): runs use the star topology, except the single-message "
+                  "fan-out family run under chain and binomial trees, where the payload a relay forwards (received typed or as PACKED "
+                  "bytes) is tied by observation only. Not modelled: producers with several output flows, GPU copies.")
     technique = ("Coq proof (conversion for all layouts and tile sizes through C19; promise invariants) + observation differential: "
                  "generated JDF -> parsec-ptgpp -> cc -> run on 1..4 MPI ranks, compared with the extracted reference interpreter; "
                  "property oracle on the observations alone")
@@ -334,7 +336,9 @@ class C18(Check):
                    "rejected by the generator: the short-message path then receives bytes, the rendez-vous path aborts in MPI)",
                    "with short messages a producer instance sends at most one message per remote rank (the documented unsupported case of "
                    "tests/collections/reshape/testing_remote_multiple_outs_same_pred_flow.c is excluded)",
-                   "broadcast topology star (runtime_comm_coll_bcast=0): relays are not modelled (see C13 finding F8)",
+                   "broadcast topology star (runtime_comm_coll_bcast=0) unless a producer sends a single message (then also chain and "
+                   "binomial): two messages with different destination sets abort in a relay (C13 finding F8); a relay forwards the "
+                   "payload unchanged (observed, not modelled)",
                    "generated programs have no data race between task bodies (bodies modify a tile only on pure chains)")
 
     # ----------------------------------------------------------------- cases
@@ -384,6 +388,16 @@ class C18(Check):
             for q in (p, G.with_config(p, 1, 1)) if r.chance(1, 3) else (p,):
                 if G.declared(q)[0]:
                     out.append(G.to_case(q) + " V %d" % self.model_fixed)
+        # the family of the forwarding broadcast (tools/gen_reshape.py:gen_bcast): 3..4 ranks, chain and binomial trees, star as
+        # control, with and without short messages
+        for i in range(int(os.environ.get("VERIF_C18_NBCAST", "2" if self.tier == "quick" else "20"))):
+            p = G.gen_bcast(r, nranks=r.pick([3, 3, 4]))
+            if not (G.declared(p)[0] and G.single_message(p)):
+                continue
+            for bc in ((1, 2) if i % 2 == 0 else (2, 1, 0)):
+                q = G.with_config(p, p.nranks, p.short if bc == 1 else 1 - p.short)
+                q.bcast = bc
+                out.append(G.to_case(q) + " V %d" % self.model_fixed)
         return self.model_filter(out)
 
     def corpus(self):
@@ -534,6 +548,15 @@ class C18(Check):
                                         "read", "unselected")
         # O1: delivery along every edge (both data flows of a consumer)
         delivered = {}
+        allowed = {}      # (source copy, pack type, unpack type) -> number of promises that declare this conversion
+        for ci, C in enumerate(p.classes):
+            if C.inp[0] == "D" and (C.inp[1] or C.inp[2]):
+                src, dst = (C.inp[2] or 1), (C.inp[1] or C.inp[2])
+                if dst != 1:
+                    for k in range(p.nt):
+                        for r in range(C.R):      # every task reading the tile with a conversion makes its own copy
+                            akey = ("D%d" % p.tile(ci, k, r), SHN[src], SHN[dst])
+                            allowed[akey] = allowed.get(akey, 0) + 1
         for ci, C in enumerate(p.classes):
             if C.R != 1:
                 continue
@@ -593,6 +616,10 @@ class C18(Check):
                     exp = self.expected_local(d, u["to"], u["ti"])
                     if exp is not None:
                         groups.setdefault(exp, set()).add((O.tasks if u["flow"] == "A" else O.tasksb)[(u["q"], u["k"], u["r"])][0])
+                for exp in groups:
+                    # this producer instance owns one promise: one conversion per distinct declared (pack, unpack)
+                    akey = (sptr, SHN[exp[0]], SHN[exp[1]])
+                    allowed[akey] = allowed.get(akey, 0) + 1
                 for exp, ptrs in groups.items():
                     if len(ptrs) > 1:
                         return ("consumers of C%d(%d,0) with the same conversion %s -> %s hold different copies %s"
@@ -605,8 +632,10 @@ class C18(Check):
                 if not same and a[7] == b[7]:
                     return ("C%d(%d,%d): flows A and B were delivered differently (%s / %s) but alias one copy %s"
                             % (key + (a[3:7], b[3:7], a[7])), "remote" if not a[2] else "local-later", "aliased-flows")
-        # O4: at most one conversion per (source copy, source type, destination type) into a fresh copy
-        seen = set()
+        # O4: a reshape promise is fulfilled at most once per requested shape.  A promise belongs to ONE producer
+        # instance: two producers that hold the same copy (passed on without conversion) each convert it for their own
+        # consumers, so a (source copy, pack type, unpack type) may occur once per promise that declares it.
+        seen = {}
         dtt_of = {ptr: dtt for (ptr, dtt, _) in O.tasks.values()}
         for (sp, st, sc, dp, dt) in O.convs:
             if dp.startswith("D"):
@@ -614,9 +643,10 @@ class C18(Check):
             if sp == dp:
                 return ("a conversion was applied in place on copy %s" % sp, "conversion", "in-place")
             if sp != "u":
-                if (sp, st, dt) in seen:
-                    return ("copy %s was converted %s -> %s twice" % (sp, st, dt), "conversion", "twice")
-                seen.add((sp, st, dt))
+                seen[(sp, st, dt)] = seen.get((sp, st, dt), 0) + 1
+                if seen[(sp, st, dt)] > max(1, allowed.get((sp, st, dt), 0)):
+                    return ("copy %s was converted %s -> %s %d times, %d promise(s) declare this conversion"
+                            % (sp, st, dt, seen[(sp, st, dt)], allowed.get((sp, st, dt), 0)), "conversion", "twice")
                 # O5: no conversion when the shapes are identical
                 if st == dt and dtt_of.get(sp) == st:
                     return ("copy %s of type %s was converted to its own type" % (sp, st), "conversion", "identity")
